@@ -90,7 +90,7 @@ func headerFrame(f string, sid uint32, tag string) []byte {
 	case "H2":
 		return h2raw.Headers(sid, true, blk, &h2raw.Prio{Dep: 0, Excl: true, Weight: 255}, 0)
 	case "H3":
-		return h2raw.Headers(sid, true, blk, nil, 11) // HEADERS + CONTINUATION frames of 11 bytes
+		return h2raw.Headers(sid, true, blk, &h2raw.Prio{}, 11) // HEADERS + CONTINUATION frames of 11 bytes; PRIORITY flag with all-zero fields
 	}
 	return h2raw.Headers(sid, true, blk, nil, 0)
 }
